@@ -725,6 +725,9 @@ func (g *Gen) GenNode(depth int, root bool) *Node {
 			for i, k := 0, g.intn(1, 3, "sdl"); i < k; i++ {
 				d.L = append(d.L, g.leafValue(n.Elem))
 			}
+			if g.p(0.12, "sdempty") {
+				d.L = nil // an empty (non-nil) Default, made with spare capacity
+			}
 			n.Def = &d
 		} else if n.Elem.Kind == KSlice && IsPrimitive(n.Elem.Elem.Kind) && g.p(g.Cfg.PDefault, "sdef2") {
 			// a nested default: [][]T
